@@ -8,6 +8,7 @@ RULE = ("micro APIs over a grid: (response-type form) x (metadata-type form) wit
         "google.protobuf.Empty (imported by the service's file or only by another file), nested (qualified, package-relative, and "
         "package-relative while a top-level package of the same name exists, package-relative with the enclosing message in "
         "another file, imported or not), a type alone in a file of its own that nobody imports and no other method uses, flattened request fields named like the api_core modules (operation, operation_async), "
+        "selective generation with generate_omitted_as_internal (every LRO rpc internal; one internal and one public), "
         "another package, missing, unknown (relative, qualified, leading dot), plus un-annotated Operation methods, three packages. "
         "Schema level: every sampled grid cell is decided by the real API.build and by the model (T2). End to end: a slice of the "
         "cells is generated, the emitted from_gapic arguments and operations-client properties are read with ast (T1), and the "
@@ -102,6 +103,9 @@ def build_api(cell):
     lro = (annotation(cell["resp"], pkg, "Resp"), annotation(cell["meta"], pkg, "Meta")) if cell["annotated"] else None
     s.rpc("Start", rq.fqn, OPERATION, http=("post", "/v1/{name=jobs/*}:start"), body="*", lro=lro, sigs=[",".join(["name"] + flat)])
     s.rpc("Peek", rq.fqn, ".%s.LocalResp" % pkg, http=("get", "/v1/{name=jobs/*}:peek"))
+    if cell.get("internal") == "some":
+        # a second, PUBLIC long-running rpc next to the internal one (control)
+        s.rpc("Restart", rq.fqn, OPERATION, http=("post", "/v1/{name=jobs/*}:restart"), body="*", lro=lro)
     if cell.get("raw_sibling"):
         s.rpc("Kick", rq.fqn, OPERATION, http=("post", "/v1/{name=jobs/*}:kick"), body="*")
     files = [types, more, svc] if cell["order"] == "types-first" else [more, svc, types]
@@ -127,16 +131,36 @@ def build_api(cell):
 OPS_PREFIX = "v1custom"
 
 
+def internal_rpcs(cell):
+    """rpcs of Jobs that selective generation turns into internal _methods of the client."""
+    if not cell.get("internal"):
+        return []
+    return ["Start"] + (["Kick"] if cell.get("raw_sibling") else [])
+
+
+def client_names(cell):
+    """(sync class, async class, python name of the Start method): with internal methods the classes are the Base* ones."""
+    if cell.get("internal"):
+        return "BaseJobsClient", "BaseJobsAsyncClient", "_start"
+    return "JobsClient", "JobsAsyncClient", "start"
+
+
 def service_yaml(cell, pkg):
-    """Option file of the cell: http rules for the operations service (the REST operations client must use them)."""
-    if not cell.get("ops_http"):
+    """Option file of the cell: http rules for the operations service (the REST operations client must use them) and/or
+    selective generation with generate_omitted_as_internal (every rpc but the listed ones becomes an internal method)."""
+    if not cell.get("ops_http") and not cell.get("internal"):
         return None
-    return {"type": "google.api.Service", "config_version": 3, "name": "jobs.example.com",
-            "apis": [{"name": pkg + ".Jobs"}],
-            "http": {"rules": [
-                {"selector": "google.longrunning.Operations.GetOperation", "get": "/%s/{name=projects/*/operations/*}" % OPS_PREFIX},
-                {"selector": "google.longrunning.Operations.CancelOperation", "post": "/%s/{name=projects/*/operations/*}:cancel" % OPS_PREFIX,
-                 "body": "*"}]}}
+    sy = {"type": "google.api.Service", "config_version": 3, "name": "jobs.example.com", "apis": [{"name": pkg + ".Jobs"}]}
+    if cell.get("ops_http"):
+        sy["http"] = {"rules": [
+            {"selector": "google.longrunning.Operations.GetOperation", "get": "/%s/{name=projects/*/operations/*}" % OPS_PREFIX},
+            {"selector": "google.longrunning.Operations.CancelOperation", "post": "/%s/{name=projects/*/operations/*}:cancel" % OPS_PREFIX,
+             "body": "*"}]}
+    if cell.get("internal"):
+        public = ["Peek"] + (["Restart"] if cell["internal"] == "some" else [])
+        sy["publishing"] = {"library_settings": [{"version": pkg, "python_settings": {"common": {"selective_gapic_generation": {
+            "methods": [f"{pkg}.Jobs.{m}" for m in public], "generate_omitted_as_internal": True}}}}]}
+    return sy
 
 
 def generate(cell, req, pkg, tag):
@@ -368,6 +392,18 @@ def extract_wrapping(src, method, files, req=None):
         "metadata_type": name_of(c.keywords[0].value), "unresolved": unresolved,
         "module_import": imports.get(_dotted(c.func)[0]), "module_name": _dotted(c.func)[0],
         "params": [a.arg for a in fn.args.args + fn.args.kwonlyargs]}}
+
+
+def has_ops_property(src, cls_suffix):
+    """Does the transport class define the operations_client property?"""
+    tree = ast.parse(src)
+    classes = [c for c in tree.body if isinstance(c, ast.ClassDef) and c.name.endswith(cls_suffix) and not c.name.startswith("_")]
+    if len(classes) != 1:
+        raise ValueError(f"{len(classes)} classes *{cls_suffix}")
+    props = [n for n in classes[0].body if isinstance(n, ast.FunctionDef) and n.name == "operations_client"]
+    if props and not any(ast.unparse(d) == "property" for d in props[0].decorator_list):
+        raise ValueError("operations_client is not a property")
+    return bool(props)
 
 
 def extract_ops_client(src, cls_suffix):
@@ -645,6 +681,7 @@ def e2e_case(args):
     def bad(what, extra=None, sig=None):
         res["violations"].append((what, dict(case, **(extra or {})), sig))
 
+    sync_cls, async_cls, start_py = client_names(cell)
     exp = expectation(req, pkg, cell)
     quirk_sig = "lro.nested_relative_type" if (cell["annotated"] and (cell["resp"] in QUIRK or cell["meta"] in QUIRK)) else None
     out, err = generate(cell, req, pkg, f"{idx}-{env.canon_hash(cell)}")
@@ -679,7 +716,7 @@ def e2e_case(args):
     got, gots = None, {False: None, True: None}
     for fname, is_async in (("client.py", False), ("async_client.py", True)):
         try:
-            w = extract_wrapping(files[base + fname], "start", files, req)
+            w = extract_wrapping(files[base + fname], start_py, files, req)
         except Exception as e:  # noqa
             res["oblige"].append((f"T1 extraction of start() from {fname}", False, repr(e)[:300]))
             continue
@@ -705,6 +742,16 @@ def e2e_case(args):
             res["oblige"].append((f"T1 {fname}: the name the from_gapic module is called by (alias included) is not a parameter of the method",
                                   ww["module_name"] not in ww["params"], f"{ww['module_name']} in {ww['params']}"))
     has_future = got is not None and got[0] == "lro"
+    sm_terms = coq.lst(f"(mkSM {coq.b(mm.name in internal_rpcs(cell))} (decide {F} {P} {method_term(mm)}))" for mm in svc.method)
+    for fname, suffix in (("transports/base.py", "Transport"), ("transports/grpc.py", "GrpcTransport"),
+                          ("transports/grpc_asyncio.py", "GrpcAsyncIOTransport"), ("transports/rest.py", "RestTransport")):
+        try:
+            present = has_ops_property(files[base + fname], suffix)
+        except Exception as e:  # noqa
+            res["oblige"].append((f"T1 reading the operations_client property of {fname}", False, repr(e)[:300]))
+            continue
+        res["t1"].append((f"{fname}: operations_client present = {present} [{json.dumps(cell, sort_keys=True)}]",
+                          f"Bool.eqb (has_operations_client {sm_terms}) {coq.b(present)}"))
     for fname, suffix, is_async in (("transports/grpc.py", "GrpcTransport", False), ("transports/grpc_asyncio.py", "GrpcAsyncIOTransport", True)):
         try:
             oc = extract_ops_client(files[base + fname], suffix)
@@ -742,12 +789,12 @@ def e2e_case(args):
         rq = d.new(pkg + ".StartRequest", name="jobs/1")
         from google.protobuf import json_format
         from google.longrunning import operations_pb2
-        transports = [("JobsClient", "grpc"), ("JobsAsyncClient", "grpc_asyncio"), ("JobsClient", "rest")]
+        transports = [(sync_cls, "grpc"), (async_cls, "grpc_asyncio"), (sync_cls, "rest")]
         calls, metas = [], []
         if got[0] == "raw":
             o = operations_pb2.Operation(name=OP_NAME, done=False)
             for cn, tr in transports:
-                spec = {"service_module": "jobs", "client": cn, "transport": tr, "method": "start",
+                spec = {"service_module": "jobs", "client": cn, "transport": tr, "method": start_py,
                         "request": {"mode": "message", "cls": f"{pypkg}:StartRequest", "b64": d.b64(rq)}, "consume": "value",
                         "grpc_script": {f"/{pkg}.Jobs/Start": [{"messages": [d.b64(o)]}]},
                         "http_script": [{"status": 200, "body": json_format.MessageToJson(o)}]}
@@ -767,17 +814,22 @@ def e2e_case(args):
                         for fnm in flat_names:
                             setattr(rqf, fnm, "x-" + fnm)
                         rmode = {"mode": "kwargs", "cls": f"{pypkg}:StartRequest", "b64": d.b64(rqf), "kwargs": ["name"] + flat_names}
-                    spec = {"service_module": "jobs", "client": cn, "transport": tr, "method": "start",
-                            "request": rmode, "consume": "lro",
-                            "grpc_script": {f"/{pkg}.Jobs/Start": [{"messages": [d.b64(ops[0])]}],
-                                            GET_OP: [{"messages": [d.b64(o)]} for o in ops[1:]]},
-                            "http_script": [{"status": 200, "body": json_format.MessageToJson(o, descriptor_pool=d.pool)} for o in ops]}
-                    calls.append(spec)
-                    metas.append({"transport": tr, "history": h, "view": view, "ops": ops})
+                    subjects = [("Start", start_py)]
+                    if cell.get("internal") == "some" and h is hs[0]:
+                        subjects.append(("Restart", "restart"))       # the public LRO rpc of the same service (control)
+                    for rpc, py in subjects:
+                        spec = {"service_module": "jobs", "client": cn, "transport": tr, "method": py,
+                                "request": rmode if rpc == "Start" else {"mode": "message", "cls": f"{pypkg}:StartRequest", "b64": d.b64(rq)},
+                                "consume": "lro",
+                                "grpc_script": {f"/{pkg}.Jobs/{rpc}": [{"messages": [d.b64(ops[0])]}],
+                                                GET_OP: [{"messages": [d.b64(o)]} for o in ops[1:]]},
+                                "http_script": [{"status": 200, "body": json_format.MessageToJson(o, descriptor_pool=d.pool)} for o in ops]}
+                        calls.append(spec)
+                        metas.append({"transport": tr, "history": h, "view": view, "ops": ops, "rpc": rpc})
         outc = gen.impl("drive", {"root": root, "package": pypkg, "calls": calls})
         for spec, meta, o in zip(calls, metas, outc):
             tr = meta["transport"]
-            tag = f"{spec['client']}/{tr}.start"
+            tag = f"{spec['client']}/{tr}.{spec['method']}"
             if meta.get("raw"):
                 res["cases"].append(({"cell": cell, "transport": tr, "raw": True}, True, ["drive-raw", f"transport={tr}"]))
                 if not o["ok"]:
@@ -797,8 +849,9 @@ def e2e_case(args):
             h, view = meta["history"], meta["view"]
             domain = h["final"] != "other_type"
             res["cases"].append(({"cell": cell, "transport": tr, "history": h}, True,
-                                 ["drive-lro", f"transport={tr}", f"history={h['id']}", f"resp={cell['resp']}", f"meta={cell['meta']}"]))
-            xcase = {"transport": tr, "history": h}
+                                 ["drive-lro", f"transport={tr}", f"history={h['id']}", f"resp={cell['resp']}", f"meta={cell['meta']}"]
+                                 + ([f"internal={cell['internal']}", f"method={spec['method']}"] if cell.get("internal") else [])))
+            xcase = {"transport": tr, "history": h, "method": spec["method"]}
             if not o["ok"]:
                 bad(f"{tag} [{h['id']}] raised {o['error']['exception']}: {o['error']['message'][:200]}", xcase, quirk_sig)
                 continue
@@ -812,11 +865,11 @@ def e2e_case(args):
                 polls = [c for c in o["http_calls"][1:]]
                 prefix = OPS_PREFIX if cell.get("ops_http") else pkg.split(".")[-1]
                 ok_paths = all(c["verb"] == "GET" and c["path"] == f"/{prefix}/{OP_NAME}" for c in polls)
-                first_ok = o["http_calls"] and o["http_calls"][0]["path"] == "/v1/jobs/1:start"
+                first_ok = o["http_calls"] and o["http_calls"][0]["path"] == f"/v1/jobs/1:{meta['rpc'].lower()}"
             else:
                 polls = o["grpc_calls"][1:]
                 ok_paths = all(c["path"] == GET_OP for c in polls)
-                first_ok = o["grpc_calls"] and o["grpc_calls"][0]["path"] == f"/{pkg}.Jobs/Start"
+                first_ok = o["grpc_calls"] and o["grpc_calls"][0]["path"] == f"/{pkg}.Jobs/{meta['rpc']}"
             expected_polls = 0 if h["initial_done"] else h["not_done"] + 1
             # ---- T2: the future contract, inside Coq
             is_a = tr == "grpc_asyncio"
@@ -903,6 +956,7 @@ def e2e_cells(ctx, n):
         {"pkg_index": 1, "resp": "missing", "meta": "missing", "annotated": True, "order": "svc-first"},
         {"pkg_index": 2, "resp": "rel_notimported", "meta": "rel_same", "annotated": True, "order": "svc-first", "flat": "operation"},
         {"pkg_index": 1, "resp": "rel_alone", "meta": "rel_same", "annotated": True, "order": "types-first"},
+        {"pkg_index": 2, "resp": "fq_same", "meta": "rel_imported", "annotated": True, "order": "svc-first", "internal": "some", "raw_sibling": True},
         {"pkg_index": 0, "resp": "empty", "meta": "rel_nested_imported", "annotated": True, "order": "types-first", "flat": "operation_async"},
     ]
     i = 0
@@ -915,6 +969,8 @@ def e2e_cells(ctx, n):
              "types_name": r.choice(["types", "types", "operation", "operation_async"]), "ops_http": r.random() < 0.3}
         if r.random() < 0.3:
             c["flat"] = r.choice(["operation", "operation_async", "both"])
+        if r.random() < 0.3:
+            c["internal"] = r.choice(["all", "some"])
         if c not in cells:
             cells.append(c)
     out = []
@@ -956,8 +1012,24 @@ def run_e2e(ctx, cells, tier_all, full=True):
 
 
 def run(ctx):
-    run_schema(ctx, grid(ctx, ctx.n(70, 700)))
-    run_e2e(ctx, e2e_cells(ctx, ctx.n(21, 100)), tier_all=not ctx.quick())
+    # the two stages are independent: the schema-level grid runs beside the end-to-end libraries
+    import threading, traceback
+    errs = []
+
+    def schema():
+        try:
+            run_schema(ctx, grid(ctx, ctx.n(70, 700)))
+        except Exception:  # noqa
+            errs.append(traceback.format_exc()[-1500:])
+
+    t = threading.Thread(target=schema)
+    t.start()
+    try:
+        run_e2e(ctx, e2e_cells(ctx, ctx.n(26, 110)), tier_all=not ctx.quick())
+    finally:
+        t.join()
+    if errs:
+        ctx.oblige("schema-level stage completed", False, errs[0], "build")
 
 
 def search(ctx, broken):
